@@ -912,7 +912,7 @@ impl<'a, 'd> Gen<'a, 'd> {
             }
             Cand::Bound(k, tr, mi) => {
                 let sig = self.p.traits[tr].methods[mi].clone();
-                let recv = self.param_value(&Ty::Param(k));
+                let recv = self.param_var(&Ty::Param(k));
                 let form = if self.d.bool() {
                     self.label("method:bound-dot");
                     MForm::Dot
@@ -987,7 +987,24 @@ impl<'a, 'd> Gen<'a, 'd> {
         }
     }
 
+    /// a variable of the (parameter) type `t`: receivers of calls through a bound are plain variables
+    fn param_var(&mut self, t: &Ty) -> Expr {
+        for (v, _) in self.visible() {
+            if self.var_ty(v) == t {
+                return Expr::Var(v);
+            }
+        }
+        Expr::Unit
+    }
+
     fn param_value(&mut self, t: &Ty) -> Expr {
+        // a field / component of that type of a value in scope (`p.first` with `p: Pair[U, T]`), or a variable
+        let ps = self.paths(t);
+        if ps.iter().any(|e| !matches!(e, Expr::Var(_))) && self.d.chance(140) {
+            let fields: Vec<Expr> = ps.into_iter().filter(|e| !matches!(e, Expr::Var(_))).collect();
+            self.label("generic-fn:field-of-parameter-type");
+            return fields[self.d.below(fields.len())].clone();
+        }
         for (v, _) in self.visible() {
             if self.var_ty(v) == t {
                 return Expr::Var(v);
@@ -2711,7 +2728,7 @@ impl<'a, 'd> Gen<'a, 'd> {
             for k in 0..tparams as usize {
                 for tr in bounds[k].clone() {
                     if self.d.chance(200) {
-                        let recv = self.param_value(&Ty::Param(k as u32));
+                        let recv = self.param_var(&Ty::Param(k as u32));
                         pre.push(self.dispatch_stmt(recv, tr, true, 2));
                     }
                 }
